@@ -359,7 +359,7 @@ def canonical_cells(ctx: Ctx) -> Dict[Tuple[str, str], Dict]:
             if f.module.name == 'hpl.ast.properties' and f.cls is not None and f.cls.name in ('HplScope', 'HplPattern', 'HplProperty') and f.kind == 'method' \
                     and f.name not in ('but', 'cast') and depth <= 4:
                 # a decomposition step moved onto the scope / pattern class
-                return not any(isinstance(n, (ast.For, ast.While, ast.Try, ast.With)) for n in ast.walk(f.node))
+                return not any(isinstance(n, (ast.While, ast.Try, ast.With)) for n in ast.walk(f.node))
             if f.module.name != 'hpl.rewrite' or depth > 4:
                 return False
             return not any(isinstance(n, (ast.While, ast.Try, ast.With)) for n in ast.walk(f.node))
@@ -372,6 +372,18 @@ def canonical_cells(ctx: Ctx) -> Dict[Tuple[str, str], Dict]:
                 cells[(P, S)] = {'outs': outs, 'where': fi.where}
         return cells
     return ctx.memo('canonical_cells', build)
+
+
+def _len_only(t: Term) -> bool:
+    """a test that looks only at the number of alternatives: (in)equalities of len(...) with a constant, combined"""
+    if isinstance(t, Op) and t.op in ('and', 'or', 'not'):
+        return all(_len_only(a) for a in t.args)
+    if isinstance(t, Op) and t.op in ('==', '!=', '<', '<=', '>', '>=') and len(t.args) == 2:
+        a, b = t.args
+        if isinstance(a, Const):
+            a, b = b, a
+        return isinstance(b, Const) and isinstance(a, Call) and isinstance(a.func, Ext) and a.func.name == 'len'
+    return False
 
 
 def D2(ctx: Ctx, rid: str = 'D2', sound_only: bool = False) -> RuleResult:
@@ -404,7 +416,7 @@ def D2(ctx: Ctx, rid: str = 'D2', sound_only: bool = False) -> RuleResult:
                 else:
                     r.fail(key + ':result', f'result is {str(leaf)[:100]}: neither [property] nor a product of copies', where)
             for t, p in norm_guards(o.guards):
-                if not (isinstance(t, Op) and t.op in ('and', '==') and 'len' in repr(t)):
+                if not _len_only(t):
                     extra_guards.append((t, p))
         if not products:
             if identity is not None and want_p is None and want_s is None and not extra_guards:
